@@ -466,8 +466,8 @@ fn run_transport(
                         // make sure space is freed up as much as possible.
                         let done = drive_connection(conn, wbuf, msgs);
                         if done {
+                            // The client count is adjusted once, when the client is actually removed below.
                             clients_to_remove.push(*token);
-                            state.decrement_clients();
                             continue;
                         }
 
@@ -489,7 +489,6 @@ fn run_transport(
                         let done = drive_connection(conn, wbuf, msgs);
                         if done {
                             clients_to_remove.push(*token);
-                            state.decrement_clients();
                         }
                     }
 
